@@ -64,17 +64,77 @@ func (p *Prog) idxFacts() *idxFacts {
 			}
 		}
 	}
-	f.firstPos = structField(p.Named("internal/grouper", "tableEntry"), "firstPos")
-	if f.firstPos == nil {
-		f.missing = append(f.missing, "internal/grouper.tableEntry.firstPos")
-	}
 	f.valuesField = structField(p.Named("internal/ecolumn", "Column"), "values")
 	f.infer()
+	// the hash table's entry struct: a struct of internal/grouper with an index.Int field; its position
+	// field is the uint32 field that is assigned a physical position (the other uint32 is the hash)
+	if es := entryStruct(p); es != nil {
+		st := es.Underlying().(*types.Struct)
+		for _, fn := range p.FuncsIn("internal/grouper") {
+			eachInstr(fn, func(in ssa.Instruction) {
+				s, ok := in.(*ssa.Store)
+				if !ok || f.firstPos != nil {
+					return
+				}
+				fa, ok := s.Addr.(*ssa.FieldAddr)
+				if !ok || !types.Identical(deref(fa.X.Type()), es) {
+					return
+				}
+				fld := st.Field(fa.Field)
+				if isUint32(fld.Type()) && f.isP(s.Val) {
+					f.firstPos = fld
+				}
+			})
+		}
+	}
+	if f.firstPos == nil {
+		f.missing = append(f.missing, "internal/grouper: position field of the hash table entry")
+	} else {
+		f.infer() // positions read back from the entry may feed further parameters
+	}
 	p.idx = f
 	return f
 }
 
 func isIntIndexType(t types.Type) bool { return isNamed(t, rel("internal/index"), "Int") }
+
+var entryStructCache = map[*Prog]*types.Named{}
+
+// entryStruct: the named struct type of internal/grouper that has an index.Int field and a bool field
+// (the open-addressing table's entry), whatever it is called.
+func entryStruct(p *Prog) *types.Named {
+	if n, ok := entryStructCache[p]; ok {
+		return n
+	}
+	var found *types.Named
+	if pk := p.PkgByID[rel("internal/grouper")]; pk != nil {
+		sc := pk.Types.Scope()
+		for _, name := range sc.Names() {
+			tn, ok := sc.Lookup(name).(*types.TypeName)
+			if !ok {
+				continue
+			}
+			st, ok := tn.Type().Underlying().(*types.Struct)
+			if !ok {
+				continue
+			}
+			hasIx, hasBool := false, false
+			for i := 0; i < st.NumFields(); i++ {
+				if isIntIndexType(st.Field(i).Type()) {
+					hasIx = true
+				}
+				if b, ok := st.Field(i).Type().(*types.Basic); ok && b.Kind() == types.Bool {
+					hasBool = true
+				}
+			}
+			if hasIx && hasBool {
+				found, _ = tn.Type().(*types.Named)
+			}
+		}
+	}
+	entryStructCache[p] = found
+	return found
+}
 
 func isUint32(t types.Type) bool {
 	b, ok := t.Underlying().(*types.Basic)
